@@ -194,6 +194,20 @@ Theorem C12_plan_properties : forall cl cfg st rq cho shufp k t s,
   P_lwt (c_dcf cl) (c_rackf cl) (c_ring cl) (c_keyspaces cl) (c_enabled cl) (c_connected cl) (ex_pol cfg) rq p.
 Proof. exact route_plan_c05. Qed.
 
+(* the acceptor of the pool tie (a request aimed at one shard of one node through a pinning
+   policy): accepted => the serving connection is one of the pool and is bound to the requested
+   shard whenever the pool has such a connection; and connection_for_shard's result is accepted
+   for every oracle *)
+Theorem C12_conn_accept_sound : forall p want sh, accept_conn_shard p want sh = true ->
+  pool_has_shard p sh = true /\
+  (pool_sharder p <> None -> pool_has_shard p (shard_u16 want) = true -> sh = shard_u16 want).
+Proof. exact accept_conn_shard_sound. Qed.
+
+Theorem C12_conn_accept_complete : forall cho p want c, pool_wf p ->
+  connection_for_shard cho p want = Some c -> cho_ok cho ->
+  accept_conn_shard p want (conn_shard c) = true.
+Proof. exact accept_conn_shard_complete. Qed.
+
 (* the well-formedness test the driver runs on its input is sound *)
 Theorem C12_pool_wfb_sound : forall p, pool_wfb p = true -> pool_wf p.
 Proof. exact pool_wfb_sound. Qed.
@@ -288,6 +302,37 @@ Example C12_ex_pool :
   connection_for_shard ex_cho (rf_view r) 70000 = Some c0.
 Proof. repeat split; vm_compute; reflexivity. Qed.
 
+(* anchors of the definitions the driver evaluates: the owners of the token, the property
+   predicate on good and on bad observations, the pool acceptor *)
+Example C12_ex_defs :
+  let cfg := ex_cfg (PDc 1) in let t := 1634052884888577606 in
+  let nts := NTS [(1%N, 1%nat); (2%N, 1%nat)] in
+  owners ex_cl (0%N, 0%N) t nts = [(1%N, 3%N); (3%N, 0%N)] /\
+  owners ex_cl (0%N, 1%N) t nts = [(2%N, 1%N); (3%N, 0%N)] /\
+  owners ex_cl (0%N, 1%N) t (Simple 3) = [(2%N, 1%N); (3%N, 0%N)] /\
+  prop_obs_ok ex_cl cfg (ex_stmt 0) ex_values (Some t) (Some (1%N, 3%N)) = true /\
+  (* wrong shard although the pool has the owning one; a node that is no replica; the remote
+     replica although the preferred datacenter has a live one; nothing sent at all *)
+  prop_obs_ok ex_cl cfg (ex_stmt 0) ex_values (Some t) (Some (1%N, 2%N)) = false /\
+  prop_obs_ok ex_cl cfg (ex_stmt 0) ex_values (Some t) (Some (2%N, 0%N)) = false /\
+  prop_obs_ok ex_cl cfg (ex_stmt 0) ex_values (Some t) (Some (3%N, 0%N)) = false /\
+  prop_obs_ok ex_cl cfg (ex_stmt 0) ex_values (Some t) None = false /\
+  (* tablet table: node 2 is the tablet's replica in datacenter 1; its pool lacks shard 1 *)
+  prop_obs_ok ex_cl cfg (ex_stmt 1) ex_values (Some t) (Some (2%N, 0%N)) = true /\
+  prop_obs_ok ex_cl cfg (ex_stmt 1) ex_values (Some t) (Some (1%N, 3%N)) = false /\
+  route_ok ex_cl cfg (ex_stmt 1) ex_values (Some (3%N, 0%N)) = false /\
+  route_ok ex_cl cfg (ex_stmt 0) ex_values None = false /\
+  usable ex_cl (ex_pol cfg) {| rq_token := Some t; rq_ks := Some 0%N; rq_lwt := false; rq_pref := PAny |} 4%N = false /\
+  pool_has_shard (ex_pool 2) 1 = false /\ pool_has_shard (ex_pool 2) 0 = true /\
+  accept_conn_shard (ex_pool 1) 2 2 = true /\ accept_conn_shard (ex_pool 1) 2 3 = false /\
+  accept_conn_shard (ex_pool 2) 1 0 = true /\ accept_conn_shard (ex_pool 2) 0 1 = false /\
+  accept_conn_shard (ex_pool 1) 70000 0 = true /\ accept_conn_shard (ex_pool 1) 70000 1 = false /\
+  accept_conn_shard (ex_pool 3) 5 0 = true /\ accept_conn_shard PoolDown 0 0 = false /\
+  shard_u16 65535 = 65535%N /\ shard_u16 65536 = 0%N /\
+  pool_wfb (PoolSharded 2 0 [[mkConn 1 (Some (1, 2, 0)%N)]; []]) = false /\
+  pool_wfb (PoolSharded 2 0 [[]; []]) = false /\ pool_wfb (PoolNotSharded []) = false.
+Proof. repeat split; vm_compute; reflexivity. Qed.
+
 Print Assumptions C12_token.
 Print Assumptions C12_first_target.
 Print Assumptions C12_shard_u16.
@@ -300,4 +345,6 @@ Print Assumptions C12_model_accepted.
 Print Assumptions C12_route_prop.
 Print Assumptions C12_plan_ring.
 Print Assumptions C12_plan_properties.
+Print Assumptions C12_conn_accept_sound.
+Print Assumptions C12_conn_accept_complete.
 Print Assumptions C12_pool_wfb_sound.
